@@ -7,4 +7,5 @@ INVARIANT ElemsOK
 INVARIANT CartesianOK
 INVARIANT DescOK
 INVARIANT IndepOK
+INVARIANT CondOK
 CHECK_DEADLOCK FALSE
